@@ -2201,6 +2201,8 @@ class Interp:
         leaf = origin.rsplit(".", 1)[-1]
         if leaf in self.overrides:
             return self.overrides[leaf](*args, **kw)
+        if leaf != "closing":
+            args = [a.drain() if isinstance(a, LazyIter) else a for a in args]
         if origin.startswith("logging") and leaf == "getLogger":
             return Opaque("logger")
         if origin.startswith("warnings"):
@@ -2422,6 +2424,7 @@ class Interp:
         raise self.unsupported("ndarray method %s" % name, n)
 
     def py_method(self, v, name, args, kw, n):
+        args = [a.drain() if isinstance(a, LazyIter) else a for a in args]
         if isinstance(v, (list, tuple)) and name in ("index", "count"):
             hits = [i for i, x in enumerate(v) if self.equal(x, args[0], n)]
             if name == "count":
@@ -2733,6 +2736,9 @@ class Interp:
         return t.name == c.name
 
     def builtin(self, name, args, kw, n, env):
+        if name not in ("next", "iter", "any", "all", "isinstance", "type", "id", "print", "callable", "hasattr", "getattr", "setattr"):
+            # a builtin that is handed an iterator consumes it (once)
+            args = [a.drain() if isinstance(a, LazyIter) else a for a in args]
         if name == "isinstance":
             return self.isinstance_(args[0], args[1], n)
         if name == "issubclass":
@@ -3159,6 +3165,7 @@ class Interp:
         return _dotp(a.data, b.data)
 
     def npfunc(self, name, args, kw, n):
+        args = [a.drain() if isinstance(a, LazyIter) else a for a in args]
         if name in LOSSY_NP:
             raise LossyOperation("np.%s" % name, self.where(n))
         if name == "indices":
